@@ -237,4 +237,63 @@ def run(tier, seed):
     rep.extra['exhaustive'] = True
     rep.assumptions += ['decided: everything structural about the dispatch and the catalogues; the event-level statement '
                         'reduces to these given C01/C02 unit-level verdicts']
+    _one_engine(rep, ctx.prog)
     return rep
+
+
+def _one_engine(rep, prog):
+    """the generator class hands a request to exactly one engine per shot"""
+    from ..rules import cppflow
+    rep.rule('DISPATCH.one-engine', 'no path through decay0_generator::shoot() calls more than one engine (genbbsub once, or the gA '
+             'sampler once): a `switch` case that falls into the next one, or two independent ifs, would run the double-beta decay and '
+             'then the like-named background decay on the same event')
+    sh = prog.fn('bxdecay0::decay0_generator::shoot')
+    try:
+        F = cppflow.Flow(sh, helpers=cppflow.private_helpers(prog, sh))
+    except AnalysisBroken:
+        F = cppflow.Flow(sh)
+    g = F.g
+    eng = {n.id for n in F.nodes(kind='call') if n.stmt[1] in ('genbbsub', 'dbd_gA::shoot')}
+    if True:
+        # engine calls that live in a file-local helper which is not expanded (value-returning): calls of such helpers count too
+        locals_ = {f['name'] for f in prog.functions.values() if f.get('file') == sh.get('file') and f is not sh and
+                   any(c['callee']['qn'].split('::')[-1] in ('genbbsub',) for c in astu.calls(f['body']))}
+        eng |= {n.id for n in g.nodes if n.stmt is not None and n.kind in ('call', 'assign', 'eval') and
+               any(x[0] == 'call' and x[1].split('::')[-1] in locals_ for x in ir.subexprs(('op', 'w') + tuple(
+                   y for y in (n.stmt[2] if n.kind == 'call' else n.stmt[1:]) if isinstance(y, tuple)))) or
+               (n.kind == 'call' and n.stmt[1].split('::')[-1] in locals_)}
+        eng |= {n.id for n in F.nodes(kind='call') if n.stmt[1] == 'dbd_gA::shoot'}
+    if not eng:
+        rep.cannot_decide('DISPATCH.one-engine', where(sh), 'no engine call (genbbsub / dbd_gA::shoot) found in shoot() or its helpers')
+        return
+    # longest and shortest count of engine calls over the acyclic paths to a normal return (back edges ignored)
+    dom = F.dom
+    memo = {}
+
+    def span(i, stack):
+        if i in memo:
+            return memo[i]
+        n = g.nodes[i]
+        here = 1 if i in eng else 0
+        if n.kind == 'return':
+            return (here, here)
+        if n.kind == 'throw':
+            return None
+        res = None
+        for s_ in n.succ:
+            if s_ in stack or s_ in dom.get(i, ()):        # back edge
+                continue
+            r = span(s_, stack | {i})
+            if r is None:
+                continue
+            res = r if res is None else (min(res[0], r[0]), max(res[1], r[1]))
+        if res is None:
+            memo[i] = None
+            return None
+        memo[i] = (res[0] + here, res[1] + here)
+        return memo[i]
+    r = span(g.entry.id, frozenset())
+    ok = r is not None and r[1] == 1          # (a path with none is the undefined category, refused by initialize())
+    rep.add('DISPATCH.one-engine', 'shoot', where(sh), 'between %s and %s engine calls on the paths of shoot() that return' %
+            (r if r is None else r[0], r if r is None else r[1]), ok,
+            None if ok else ['a returning path of shoot() calls %s engines (expected at most one, and one on the defined categories)' % (r,)])
